@@ -222,6 +222,7 @@ class TUFacts:
         self.fns = []
         self.records = []
         self.vars = []
+        self.enums = []
         self.types = []
         self.summary = {}
         self.by_id = {}
@@ -237,6 +238,8 @@ class TUFacts:
                     self.records.append(o)
                 elif r == "var":
                     self.vars.append(o)
+                elif r == "enum":
+                    self.enums.append(o)
                 elif r == "types":
                     self.types = o["tab"]
                 elif r == "summary":
@@ -314,6 +317,14 @@ class Facts:
         for u in self.units:
             for v in u.vars:
                 yield u, v
+
+    def enum(self, q):
+        """name -> value of the enumeration with short qualified name q (first definition seen with values)."""
+        for u in self.units:
+            for e in u.enums:
+                if e["q"] == q and e["constants"]:
+                    return {c["n"]: c["v"] for c in e["constants"]}
+        raise AnalysisIncomplete("enumeration %s not found" % q)
 
     def inventory(self):
         return {
